@@ -490,6 +490,15 @@ class Oracle:
                     elif vt.blocked_kind == 'lockf':
                         conf = [c for c in conf if c[0].pid != vt.pid]
                     ok = bool(conf)
+                    if not ok and vt.blocked_kind == 'cond':
+                        # (c) a thread of the same process that has already passed the thread
+                        # level of this path (it is counted there) and now waits further down
+                        # (in lockf, or on an internal lock) for a justified reason
+                        for o, ofr in reqs.items():
+                            if o is not vt and o.pid == vt.pid and o in justified and \
+                                    ofr['inode'] == fr['inode'] and o.blocked_kind in ('lockf', 'lock'):
+                                ok = True
+                                break
                     if not ok and vt.blocked_kind == 'lock':
                         # (b) queued behind a justified requester that owns the internal
                         # lock this one needs (e.g. a writer waiting in lockf)
@@ -629,8 +638,10 @@ def run_one(cfg, tape: Tape, want_trace=False):
                         pe[0] == 'close' and pe[1] == vt.pid for pe in simos.produced_errors):
                     # the request was granted and served; close() of the lock fd reported EIO
                     # on the way out (injected).  The end-state checks still apply.
-                    simos.produced_errors[:] = [pe for pe in simos.produced_errors
-                                                if not (pe[0] == 'close' and pe[1] == vt.pid)][:]
+                    for pe in simos.produced_errors:        # one produced error excuses one failure
+                        if pe[0] == 'close' and pe[1] == vt.pid:
+                            simos.produced_errors.remove(pe)
+                            break
                     stats['probe.close_error_on_release'] = stats.get('probe.close_error_on_release', 0) + 1
                     oracle.on_done(vt, fr, 'granted')
                 elif entered:
